@@ -338,6 +338,17 @@ func immTemplates() []Tmpl {
 		return []*Node{b.stmt(x+" := "+q(t.Pkg)+env.List.Name+"()", &Use{Kind: UFuncRef, Fn: env.List, Call: true}),
 			b.stmt(x+"[0].F = 1", useT(UFieldAssign, t, "F"))}
 	}})
+	// statements that span several lines: the diagnostic is not on the statement's first line
+	ts = append(ts, Tmpl{Name: "assign-multi-line", Cat: IMM, Kind: "struct", NoImp: true, Make: func(b *B, t *Type, env *Env) []*Node {
+		x, a := acquire(b, t, env)
+		n := &Node{Pre: []*Line{b.line("_,"), b.line("\t" + x + ".F = 1, 2", useT(UFieldAssign, t, "F"))}}
+		return []*Node{a, n}
+	}})
+	ts = append(ts, Tmpl{Name: "assign-multi-line-two-targets", Cat: IMM, Kind: "struct", NoImp: true, Make: func(b *B, t *Type, env *Env) []*Node {
+		x, a := acquire(b, t, env)
+		n := &Node{Pre: []*Line{b.line(x+".G,", useT(UFieldAssign, t, "G")), b.line("\t" + x + ".F = 1, 2", useT(UFieldAssign, t, "F"))}}
+		return []*Node{a, n}
+	}})
 	// result of a call, type assertion, map element
 	ts = append(ts, Tmpl{Name: "assign-call-result", Cat: IMM, Kind: "struct", NoImp: true, Make: func(b *B, t *Type, env *Env) []*Node {
 		c, u := callNew(t, env)
@@ -405,6 +416,16 @@ func ctorTemplates() []Tmpl {
 	ts = append(ts, structOnly(one("var-init-lit", false, "var $x %T = %T{}", func(t *Type) []*Use {
 		return []*Use{useT(UVarInert, t, ""), refT(t, SubVar), useT(ULit, t, ""), refT(t, SubLit)}
 	}, true)))
+	ts = append(ts, Tmpl{Name: "lit-multi-line", Cat: CTOR, Kind: "struct", Make: func(b *B, t *Type, env *Env) []*Node {
+		x := b.v()
+		n := &Node{Pre: []*Line{b.tl(x+" := &%T{", useT(ULit, t, ""), refT(t, SubLit)), b.line("\tF: 1,"), b.line("}")}}
+		return []*Node{n, b.stmt("_ = " + x)}
+	}})
+	ts = append(ts, Tmpl{Name: "lit-multi-line-nested", Cat: CTOR, Kind: "struct", Make: func(b *B, t *Type, env *Env) []*Node {
+		x := b.v()
+		n := &Node{Pre: []*Line{b.line(x + " := []any{"), b.tl("\t%T{},", useT(ULit, t, ""), refT(t, SubLit)), b.tl("\tnew(%T),", useT(UNew, t, ""), free(refT(t, SubOther), TONL)), b.line("}")}}
+		return []*Node{n, b.stmt("_ = " + x)}
+	}})
 	// FREE for CTOR
 	ts = append(ts, one("free-new-ptr", true, "$x := new(*%T)", func(t *Type) []*Use { return []*Use{free(useT(UNew, t, ""), CTOR), free(refT(t, SubOther), TONL)} }, true))
 	ts = append(ts, one("free-make", true, "$x := make([]%T, 1)", func(t *Type) []*Use { return []*Use{free(refT(t, SubOther), TONL)} }, true))
@@ -454,6 +475,13 @@ func useTemplates() []Tmpl {
 		pf := q(t.Pkg) + env.Pass.Name
 		x := b.v()
 		return []*Node{b.stmt(x+" := func(p any, _ ...any) {}"), b.stmt(x+"("+pf+"("+c+"), "+q(t.Pkg)+env.Helper.Name+", "+c+"."+env.Reset.Name+")", u, &Use{Kind: UFuncRef, Fn: env.Pass, Call: true}, &Use{Kind: UFuncRef, Fn: env.Helper}, &Use{Kind: UMethodRef, Fn: env.Reset})}
+	}})
+	ts = append(ts, Tmpl{Name: "nested-multi-line-call", Cat: TONL, Kind: "struct", NoImp: true, Make: func(b *B, t *Type, env *Env) []*Node {
+		c, u := callNew(t, env)
+		pf := q(t.Pkg) + env.Pass.Name
+		// a selector expression is positioned at the start of its operand: the method value belongs to the first line
+		n := &Node{Pre: []*Line{b.line("_ = "+pf+"(", &Use{Kind: UFuncRef, Fn: env.Pass, Call: true}, &Use{Kind: UMethodRef, Fn: env.Reset}), b.line("\t"+pf+"(", &Use{Kind: UFuncRef, Fn: env.Pass, Call: true}), b.line("\t\t"+c+",", u), b.line("\t),"), b.line(")." + env.Reset.Name)}}
+		return []*Node{n}
 	}})
 	// type mentions in declarations
 	ts = append(ts, Tmpl{Name: "decl-param", Cat: TONL, Decl: true, Make: func(b *B, t *Type, env *Env) []*Node {
